@@ -13,7 +13,7 @@
  * no stored index of g_c refers to a number that no longer exists, no index twice, and g_c lost exactly the entry of old vector j. */
 #include "mirror_spec.h"
 int g_rm_calls, g_rm_arg, g_rm_set, g_add_r, g_add_c, g_eps, g_sv, g_newnum; const int* gp_cnt;
-int *gp_om, *gp_os, *gp_cm, *gp_cs, *gp_perm; void* gp_xpool; int g_pos_i, g_pos_n; int* gp_pe;
+int *gp_om, *gp_os, *gp_cm, *gp_cs, *gp_perm; int g_pos_i, g_pos_n; int* gp_pe;
 int g_i, g_c, g_src, g_j, g_n0, g_last, g_has, g_v, g_hadj, g_cs0;
 /* old content of cross vector g_c, looked up at the indices g_i, j, last (specification ghosts for the loop invariants) */
 int g_oh, g_ov, g_ohj, g_ohl, g_ovl;
@@ -40,7 +40,7 @@ __CPROVER_requires(g_has == HAS(om, os, g_src, g_c) && g_v == VALOF(om, os, g_sr
 /* definitions of the invariant ghosts */
 __CPROVER_requires(g_oh == HAS(cm, cs, g_c, g_i) && g_ov == VALOF(cm, cs, g_c, g_i) && g_ohj == HAS(cm, cs, g_c, j))
 __CPROVER_requires(g_ohl == HAS(cm, cs, g_c, g_last) && g_ovl == VALOF(cm, cs, g_c, g_last))
-__CPROVER_assigns(g_rm_calls, g_rm_arg, g_rm_set, gp_om, gp_os, gp_cm, gp_cs, gp_xpool, g_pos_i, g_pos_n, gp_pe, *nown, __CPROVER_object_whole(om), __CPROVER_object_whole(os),
+__CPROVER_assigns(g_rm_calls, g_rm_arg, g_rm_set, gp_om, gp_os, gp_cm, gp_cs, g_pos_i, g_pos_n, gp_pe, *nown, __CPROVER_object_whole(om), __CPROVER_object_whole(os),
                   __CPROVER_object_whole(cm), __CPROVER_object_whole(cs))
 /* the own set's remove(j) is called exactly once, with j; one vector less; the cross count is untouched */
 __CPROVER_ensures(g_rm_calls == 1 && g_rm_arg == j && g_rm_set == OWNSET && *nown == g_n0 - 1)
